@@ -63,6 +63,14 @@ type ObjSpec struct {
 	Kind    int    `json:"kind"`
 	NilRecv bool   `json:"nilrecv,omitempty"`
 	Vec     string `json:"vec"`
+	// Sets: exported fields the owner assigns after decoding and before the object
+	// is shared
+	Sets []WorldSet `json:"sets,omitempty"`
+}
+
+type WorldSet struct {
+	Field    int    `json:"field"`
+	DonorVec string `json:"donor_vec,omitempty"` // take the value this vector decodes to ("" = the invalid value)
 }
 
 type RepSpec struct {
